@@ -141,7 +141,7 @@ func relayBackend(w http.ResponseWriter, r *http.Request) {
 				if i < len(chunks)-1 && ok {
 					select {
 					case <-ex.acks:
-					case <-time.After(400 * time.Millisecond):
+					case <-time.After(6 * time.Second): // generous: only a chunk that is really held back misses this
 						ok = false // the client did not see this chunk before the next one
 					}
 				}
